@@ -528,13 +528,16 @@ class DocumentMapper:
         return -1, 0
 
     def _touches_document_text(self, start_idx: int, end_idx: int) -> bool:
-        return any(s.run is not None and s.end > start_idx and s.start < end_idx for s in self.spans)
+        covered = [s for s in self.spans if s.run is not None and s.end > start_idx and s.start < end_idx]
+        # Text inside a tracked deletion cannot be edited again, so an occurrence reaching into one is no candidate either.
+        return bool(covered) and not any(s.del_id for s in covered)
 
     def _find_on_document_text(self, haystack: str, needle: str) -> int:
         """
         First occurrence of needle in haystack (full_text, or a same-length variant of it) that touches text of the
         document itself. The projection also contains generated text (comment and change metadata, style markers,
-        paragraph separators); an occurrence lying wholly inside it resolves to no run and cannot be edited.
+        paragraph separators); an occurrence lying wholly inside it resolves to no run and cannot be edited. Neither can
+        an occurrence that reaches into a tracked deletion; a later occurrence in live text is preferred to both.
         """
         idx = haystack.find(needle)
         while idx != -1:
